@@ -19,10 +19,18 @@ checks = {
    text="Held on the executions observed: every add/update/remove call over all presence classes, state values and signer combinations is classified effect/inert and compared with the model; the legacy and structured candidate lists must equal the model after every call.", ref="§3 C07"),
  "C08": dict(tech="runtime monitoring: exhaustive small-scope history enumeration on the real ledger with a retention-window model; complete read sweeps and raw storage scans after every resize and tick",
    text="Held on the executions observed; the bounded scope named in the quantifier (counts 0..12, resize epochs 0..30, one resize in quick / up to two in thorough) is executed completely, every history followed by read sweeps of snapshot/snapshotByEpoch/listNodes/netmap and storage scans against the model; plus random longer histories in thorough.", ref="§3 C08"),
+ "C10": dict(tech="runtime monitoring: NNS reference model with virtual time; accounting and lifecycle reads after every operation and at the instants exp-1/exp/exp+1",
+   text="Held on the executions observed: registrations, takeovers of expired names, transfers, renewals and admin changes over names of level 2-4 under a long- and a short-lived TLD; totalSupply, the raw sum of balances, balanceOf, tokensOf, tokens, isAvailable, ownerOf and properties are compared with the model after every operation and at the boundary instants of live names and parent TLDs; every ownership change must carry exactly the predicted Transfer notification.", ref="§3 C10"),
+ "C11": dict(tech="runtime monitoring: history-aware authorisation monitor; per call the model computes the principals that may act now, outcome must be effect/inert accordingly",
+   text="Held on the executions observed: every mutating NNS method crossed with roles (owner, admin, former owner/admin, parent owner/admin, stranger, committee majority, Alphabet, member, nobody) on committees of 1/3/4/7 over evolving ownership histories; unauthorised calls must leave an empty storage diff and no notification, authorised ones with valid arguments must take effect.", ref="§3 C11"),
+ "C12": dict(tech="runtime monitoring: record/resolution reference model; ordered getRecords, getAllRecords and resolve read for every pool name and type after every operation",
+   text="Held on the executions observed: record operations over tokens, sub-names and interleaved registrations, CNAME graphs up to depth 4 with cycles, the 16-record and single-CNAME limits, SOA serial refresh, conflicting-record rule and unreachability after expiry are compared with the model through all three read paths.", ref="§3 C12"),
  "C14": dict(tech="runtime monitoring: roster reference model compared in order through the iterators, and an independent crypto/ecdsa oracle counting distinct signing members over generated signature matrices",
    text="Held on the executions observed: roster histories crossing the 2-byte counter boundaries are read back in order; verifyPlacementSignatures=true (and a successful submitObjectPut) is accepted only if the Go oracle finds >= REP distinct members with a valid signature in every vector; honest matrices must be accepted.", ref="§3 C14"),
  "C09": dict(tech="runtime monitoring: executable lock model stepping with the transaction stream; exact multiset of unlock transfers and balance deltas per epoch tick, state read-back of every lock after every block",
    text="Held on the executions observed: lock/burn/transfer/tick histories with many locks sharing parents and expiry epochs; each tick's unlock events and balance deltas must equal the model's expired set exactly (exactly-once by construction of the model).", ref="§3 C09"),
+ "C18": dict(tech="runtime monitoring: exhaustive small-scope input enumeration through read-only invocations of the real contract, judged by independent predicates (names) and a MUST/MAY sandwich over net/netip (addresses)",
+   text="Held on the executions observed; the finite scope named in the quantifier (all strings of length <= 5 quick / <= 6 thorough over the reduced alphabet, complete address mutation lists) is executed completely, plus boundary lengths and up to a million grammar-biased random strings; a sample of refusals is submitted as real transactions and must leave an empty storage diff.", ref="§3 C18"),
  "C20": dict(tech="runtime monitoring: multimap reference models of five stores; every getter/lister read for every pool element after every operation; known-finding matcher for prefix-scan aliasing",
    text="Held on the executions observed, with three recorded known findings (prefix-scan aliasing of variable-length epoch encodings in Reputation, Audit and container estimations, see KNOWN_FINDINGS.json): puts over prefix-related epochs/ids/keys, clean-up boundaries, access rules (previous network map, Inner Ring membership, Alphabet) are compared with exact-store models; any discrepancy the aliasing matcher does not explain completely is a VIOLATION.", ref="§3 C20"),
 }
